@@ -15,6 +15,7 @@ import (
 	"context"
 	"fmt"
 	"runtime"
+	"strings"
 	"sync"
 	"testing"
 	"testing/synctest"
@@ -320,12 +321,35 @@ func runCase(t *testing.T, c *rig.Check, ks kase) (res result) {
 		for _, cl := range all {
 			cl.cancel()
 		}
+		// Time stops when the bubble's root returns: if the lock misbehaved, holders that were not
+		// unlocked still have TTL watchdogs parked on their timers; let those run out first.
+		for k := 0; k < 4; k++ {
+			synctest.Wait()
+			if lockGoroutines() == 0 {
+				break
+			}
+			time.Sleep((longTTL + shortTTL) * time.Millisecond)
+		}
 		if rg != nil {
 			rg.Stop()
 			time.Sleep(2 * time.Minute)
 		}
 	})
 	return
+}
+
+// lockGoroutines counts the goroutines that have a frame inside the lock package.
+func lockGoroutines() int {
+	buf := make([]byte, 1<<20)
+	for {
+		n := runtime.Stack(buf, true)
+		if n < len(buf) {
+			buf = buf[:n]
+			break
+		}
+		buf = make([]byte, 2*len(buf))
+	}
+	return strings.Count(string(buf), "app/core/hydra/lock.(*lock)")
 }
 
 // heapAfter locks and unlocks n distinct keys on a fresh lock and returns the live heap growth.
